@@ -16,6 +16,9 @@ SPEC = os.path.join(VERIF, "spec")
 HARNESS = os.path.join(VERIF, "harness")
 TARGET = os.path.join(WORK, "target")
 KH = os.path.join(TARGET, "release", "kharness")
+# the same harness built with konst's `debug` feature (the properties hold for every feature configuration)
+TARGET_DBG = os.path.join(WORK, "target-konst-debug")
+KH_DBG = os.path.join(TARGET_DBG, "release", "kharness")
 TLA_CP = "/opt/veriftools/tla/tla2tools.jar:/opt/veriftools/tla/CommunityModules-deps.jar"
 TLA_LIB = os.pathsep.join(os.path.join(SPEC, d) for d in ("", "mc", "emit", "trace", "legacy"))
 
@@ -155,6 +158,11 @@ def build_harness():
                        stdout=subprocess.PIPE, stderr=subprocess.STDOUT, text=True)
     if p.returncode != 0:
         raise ToolError("harness build failed (does /repo still compile?):\n" + tail(p.stdout, 80))
+    if not os.environ.get("VERIF_NO_DEBUG_FEATURE"):
+        p = subprocess.run(["cargo", "build", "--release", "--offline", "--features", "konst_debug", "--target-dir", TARGET_DBG],
+                           cwd=HARNESS, env=e, stdout=subprocess.PIPE, stderr=subprocess.STDOUT, text=True)
+        if p.returncode != 0:
+            raise ToolError("harness build with konst's `debug` feature failed:\n" + tail(p.stdout, 80))
     return round(time.time() - t0, 1)
 
 
@@ -164,7 +172,8 @@ def _limits():
     resource.setrlimit(resource.RLIMIT_AS, (8 << 30, 8 << 30))
 
 
-def kh_replay(files, timeout=1800):
+def kh_replay(files, timeout=1800, kh=None):
+    KH = kh or globals()["KH"]
     p = subprocess.run(["timeout", str(timeout), KH, "replay"] + list(files), stdout=subprocess.PIPE,
                        stderr=subprocess.PIPE, text=True, preexec_fn=_limits)
     if p.returncode < 0 or p.returncode in (101, 124, 132, 134, 135, 136, 137, 139):
@@ -280,6 +289,15 @@ class Run:
             log("  EXTRA-MISMATCH (behaviour modelled beyond the listed properties; not a violation): %s" % json.dumps(m)[:400])
             self.extra.setdefault("beyond_property_mismatches", []).append(m)
         self.extra["n_mismatch_total"] = self.extra.get("n_mismatch_total", 0) + s["n_mismatch"]
+        # the same behaviours on the harness built with konst's `debug` feature
+        if not os.environ.get("VERIF_NO_DEBUG_FEATURE") and os.path.exists(KH_DBG):
+            d = kh_replay(files, kh=KH_DBG)
+            log("  replay %-24s %8d behaviours %9d comparisons  mismatches=%d  (konst feature `debug`)" %
+                (label or os.path.basename(files[0]), d["lines"], d["checks"], d["n_mismatch"]))
+            self.extra["comparisons_with_konst_debug_feature"] = self.extra.get("comparisons_with_konst_debug_feature", 0) + d["checks"]
+            for m in d["mismatches"]:
+                m = dict(m, variant="feature debug: " + str(m.get("variant")))
+                self.add_violation({"kind": "vector", "detail": m, "records": [m.get("rec")]})
         return s
 
     def sample_file(self, path, k=3):
